@@ -27,7 +27,7 @@ Not decided: the file tree actually produced by doppel/patchelf.
 import ast
 
 from ..consteval import EnumMember, const_eval
-from ..facts import Facts, has, has_call, has_const, paths
+from ..facts import Facts, has, has_call, has_const, paths, param_of
 from ..index import unparse, walk_no_nested
 from .. import query as Q
 
@@ -147,10 +147,19 @@ def installify(ctx, F):
     ctx.ob(R, 'installify|suffix-below-root-or-directory', ok, fy.node,
            'installed path is not <install root or directory>/<install '
            'suffix>')
-    ok = bool(ctors) and all(
-        'param:cross' in e.arg(kw='destdir') or has(e.arg(kw='destdir'),
-                                                    'cross')
-        for e in ctors)
+    def destdir_ok(e):
+        """destdir = not cross: as an expression, or as a constant under a
+        test of `cross` (True where cross is false, False where it holds)."""
+        k = Q.kwarg(e.call, 'destdir')
+        if isinstance(k, ast.Constant) and isinstance(k.value, bool):
+            pol = [pos for f_, n_ in e.path
+                   for t, pos, tf, tb in F.guard_leaves(n_, f_)
+                   if param_of(F.atoms(t, tf, tb), 'cross') or
+                   has(F.atoms(t, tf, tb), 'cross')]
+            return bool(pol) and all(p_ == (not k.value) for p_ in pol)
+        return 'param:cross' in e.arg(kw='destdir') or has(
+            e.arg(kw='destdir'), 'cross')
+    ok = bool(ctors) and all(destdir_ok(e) for e in ctors)
     neg = all(isinstance(Q.kwarg(e.call, 'destdir'), ast.UnaryOp) and
               isinstance(Q.kwarg(e.call, 'destdir').op, ast.Not) or
               not isinstance(Q.kwarg(e.call, 'destdir'), (ast.Name,
